@@ -231,6 +231,74 @@ Proof.
       destruct Hm as [F | Hm]; [discriminate | assumption].
 Qed.
 
+(* the `*` branch's look below the instances on top of the stack *)
+Lemma split_insts_spec s : forall acc, exists I rest,
+  split_insts s acc = (rev I ++ acc, rest) /\ s = map TInst I ++ rest /\
+  (forall t r, rest <> TInst t :: r).
+Proof.
+  induction s as [|x s IH]; intros acc.
+  - exists [], []. repeat split. discriminate.
+  - destruct x as [|t|c].
+    + exists [], (TNone :: s). repeat split. discriminate.
+    + destruct (IH (t :: acc)) as (I & rest & E & -> & Hr). exists (t :: I), rest.
+      cbn [split_insts rev map app]. rewrite E, <- app_assoc. repeat split. exact Hr.
+    + exists [], (TCon c :: s). repeat split. discriminate.
+Qed.
+
+Lemma star_collapse_cases s : 
+  match star_collapse s with
+  | Ok s1 => s1 = s \/ exists I c r t, I <> [] /\ s = map TInst I ++ TCon c :: r /\ s1 = TInst t :: r
+  | Err _ => True
+  | Crash _ => False
+  end.
+Proof.
+  unfold star_collapse. destruct (split_insts_spec s []) as (Is & rest & E & Hs & _).
+  rewrite E, app_nil_r.
+  destruct rest as [|[|t|c] r]; try (now left).
+  remember (rev Is) as args eqn:ER.
+  destruct args as [|a l]; [now left|].
+  destruct (Nat.eqb (fst c) (fst c_product)); [now left|].
+  pose proof (mk_tapp_no_crash c (a :: l)) as NC.
+  destruct (mk_tapp c (a :: l)) as [t| |]; cbn [bind].
+  - right. exists Is, c, r, t. split; [|split; [assumption | reflexivity]].
+    intros ->. discriminate.
+  - exact I.
+  - exact NC.
+Qed.
+
+Lemma count_none_insts I : count_none (map TInst I) = 0.
+Proof. induction I; cbn; auto. Qed.
+
+Lemma TInv_collapse I c r t lvl : I <> [] ->
+  TInv (map TInst I ++ TCon c :: r) lvl -> TInv (TInst t :: r) lvl.
+Proof.
+  intros HI (up & E & Hl & Hs).
+  (* the bottom None lies in r *)
+  destruct r as [|z r'] using rev_ind.
+  { exfalso. change (map TInst I ++ [TCon c]) with (map TInst I ++ [TCon c]) in E.
+    apply app_inj_tail in E as [_ F]. discriminate. }
+  clear IHr'.
+  change (map TInst I ++ TCon c :: r' ++ [z]) with (map TInst I ++ (TCon c :: r') ++ [z]) in E.
+  rewrite app_assoc in E. apply app_inj_tail in E as [<- ->].
+  destruct Hs as [F | (more & x & Hm & Hx)].
+  { exfalso. destruct I; [congruence | discriminate]. }
+  destruct r' as [|y r''] using rev_ind.
+  - (* the operator would be stack[1] with instances above it at level 0 *)
+    exfalso. apply app_inj_tail in Hm as [<- <-].
+    rewrite count_none_app, count_none_insts in Hl. cbn in Hl.
+    destruct Hx as [F | (c' & _ & _ & [F | F])]; [discriminate | | congruence].
+    destruct I; [congruence | discriminate].
+  - clear IHr''.
+    change (map TInst I ++ TCon c :: r'' ++ [y]) with (map TInst I ++ (TCon c :: r'') ++ [y]) in Hm.
+    rewrite app_assoc in Hm. apply app_inj_tail in Hm as [<- <-].
+    exists (TInst t :: r'' ++ [y]). split; [cbn [app]; now rewrite <- app_assoc|]. split.
+    + rewrite Hl, !count_none_app, count_none_insts. cbn [count_none app]. rewrite count_none_app. lia.
+    + right. exists (TInst t :: r''), y. split; [reflexivity|].
+      destruct Hx as [-> | (c' & -> & Hn & Hm)]; [now left|].
+      right. exists c'. split; [reflexivity|]. split; [assumption|]. right.
+      destruct Hm as [F | Hm]; [|assumption]. exfalso. destruct I; [congruence | discriminate].
+Qed.
+
 Section Total.
   Variable lookup_op : str -> option nat.
   Variable lookup_ty : str -> option (nat * nat).
@@ -263,8 +331,13 @@ Section Total.
     destruct (str_eqb t s_us).
     { unfold ty_push. cbn [fst snd]. apply push_step; [assumption|discriminate|discriminate]. }
     destruct (str_eqb t s_star).
-    { destruct ts as [|[|t1|c] r] eqn:E; try exact I.
-      - destruct HI as (up & F & _). now destruct up.
+    { pose proof (star_collapse_cases ts) as HC.
+      destruct (star_collapse ts) as [s1| |]; cbn [bind]; [|exact I|exact HC].
+      assert (HI1 : TInv s1 lvl).
+      { destruct HC as [-> | (I0 & c & r & t0 & Hne & -> & ->)]; [assumption|].
+        eapply TInv_collapse; eauto. }
+      destruct s1 as [|[|t1|c] r] eqn:E; try exact I.
+      - destruct HI1 as (up & F & _). now destruct up.
       - cbn [fst snd]. now apply (star_step (TInst t1 :: r) lvl t1 r). }
     destruct (str_eqb t s_Top).
     { unfold ty_push. cbn [fst snd]. apply push_step; [assumption|discriminate|discriminate]. }
@@ -453,7 +526,10 @@ Section Total.
       apply backtrack_nonempty in Hb. destruct (str_eqb t s_rp); cbn; [assumption | discriminate]. }
     destruct (str_eqb t s_us); [discriminate|].
     destruct (str_eqb t s_star).
-    { destruct ts as [|[|t1|c] r]; [congruence|exact I|discriminate|exact I]. }
+    { pose proof (star_collapse_cases ts) as HC.
+      destruct (star_collapse ts) as [s1| |]; cbn [bind]; [|exact I|exact HC].
+      assert (s1 <> []) by (destruct HC as [-> | (I0 & c & r & t0 & _ & _ & ->)]; [assumption | discriminate]).
+      destruct s1 as [|[|t1|c] r]; [congruence|exact I|discriminate|exact I]. }
     destruct (str_eqb t s_Top); [discriminate|].
     destruct (str_eqb t s_Bottom); [discriminate|].
     destruct (lookup_ty t); [discriminate | exact I].
